@@ -126,7 +126,7 @@ pub fn run(ctx: &Ctx) -> i32 {
          default CLI output must show it. distinct_nontrivial = distinct file sets judged",
     );
     rep.assume("when several labels are undefined the tool may name any one of them as the location");
-    let per_shard = ctx.tier.pick(6, 300);
+    let per_shard = ctx.tier.pick(40, 300);
     let acc = run_sharded(ctx, |shard| {
         let mut acc = Acc::new();
         for k in 0..per_shard {
